@@ -269,3 +269,29 @@ Proof.
     + apply in_flat_map in Hc. destruct Hc as [[tid pid] [Htp Hc]]. exists (tid, pid). split; [exact Htp|].
       simpl fst in *. rewrite (Hg tid c Hc), thread_of_mk, same_thread_tid. apply N.eqb_refl.
 Qed.
+
+(* ---- scheduler events: dump --chrome names a pre-empted switch like a voluntary one ---- *)
+Definition map_rstack (k : rstack) : rstack := map (fun e => (chrome_name (fst e), snd e)) k.
+Definition map_rst (st : list (N * rstack)) : list (N * rstack) := map (fun p => (fst p, map_rstack (snd p))) st.
+Lemma r_get_map : forall tid st, r_get tid (map_rst st) = map_rstack (r_get tid st).
+Proof. intros tid st. induction st as [|[k s] r IH]; [reflexivity|]. simpl. destruct (k =? tid); [reflexivity|exact IH]. Qed.
+Lemma r_set_map : forall tid v st, r_set tid (map_rstack v) (map_rst st) = map_rst (r_set tid v st).
+Proof. intros tid v st. induction st as [|[k s] r IH]; [reflexivity|]. simpl. destruct (k =? tid); simpl; [reflexivity|rewrite IH; reflexivity]. Qed.
+Lemma wf_run_chrome : forall s st, wf_run st s = true -> wf_run (map_rst st) (chrome_stream s) = true.
+Proof.
+  induction s as [|[tid e] s IH]; intros st H; [reflexivity|]. destruct e as [x t|x t]; simpl in *.
+  - rewrite r_get_map. change ((chrome_name x, t) :: map_rstack (r_get tid st)) with (map_rstack ((x, t) :: r_get tid st)).
+    rewrite r_set_map. apply IH, H.
+  - rewrite r_get_map. destruct (r_get tid st) as [|[y t0] k]; [discriminate|]. simpl.
+    apply andb_prop in H. destruct H as [Hn H]. apply name_eqb_eq in Hn. subst y. rewrite name_eqb_refl. simpl.
+    rewrite r_set_map. apply IH, H.
+Qed.
+Lemma mono_run_chrome : forall s ls, mono_run ls (chrome_stream s) = mono_run ls s.
+Proof.
+  induction s as [|[tid e] s IH]; intros ls; [reflexivity|]. destruct e; simpl; rewrite IH; reflexivity.
+Qed.
+Theorem chrome_stream_wf : forall s, wf_stream s = true -> wf_stream (chrome_stream s) = true.
+Proof.
+  intros s H. unfold wf_stream in *. apply andb_prop in H. destruct H as [H1 H2].
+  rewrite mono_run_chrome, H2, andb_true_r. apply (wf_run_chrome s [] H1).
+Qed.
